@@ -96,3 +96,53 @@ class LineCov:
 
     def summary(self):
         return {f: len(s) for f, s in self.hit.items()}
+
+
+class YieldInjector:
+    """sys.monitoring LINE events in the named repository files: with probability p the running thread yields
+    (time.sleep(0)), which multiplies the thread interleavings seen inside value()/the metadata cleaner."""
+
+    def __init__(self, repo, rel_files, seed=0, p=0.3):
+        import random
+
+        self.files = {os.path.realpath(os.path.join(repo, f)) for f in rel_files}
+        self.rnd = random.Random(seed)
+        self.p = p
+        self.tool = None
+        self.injected = 0
+        self.lines = 0
+
+    def __enter__(self):
+        import time
+
+        mon = sys.monitoring
+        for tool in (mon.PROFILER_ID, mon.DEBUGGER_ID, 3, 4):
+            try:
+                mon.use_tool_id(tool, "vmon-yield")
+                self.tool = tool
+                break
+            except ValueError:
+                continue
+        if self.tool is None:
+            return self
+
+        def on_line(code, line):
+            if code.co_filename not in self.files:
+                return mon.DISABLE
+            self.lines += 1
+            if self.rnd.random() < self.p:
+                self.injected += 1
+                time.sleep(0)
+
+        mon.register_callback(self.tool, mon.events.LINE, on_line)
+        mon.set_events(self.tool, mon.events.LINE)
+        return self
+
+    def __exit__(self, *a):
+        if self.tool is not None:
+            mon = sys.monitoring
+            mon.set_events(self.tool, 0)
+            mon.register_callback(self.tool, mon.events.LINE, None)
+            mon.free_tool_id(self.tool)
+            self.tool = None
+        return False
